@@ -63,6 +63,9 @@ SEEDS = {
  'C04e': ('C04', 'back/back11 do_handle_prio_msg_queue_deferred_queue(true_): the two source checks merged - no queue drain after a re-offered deferred event', 'event_queue_before_deferred_queue policy; a deferred event whose handling submits an event, then a further external event'),
  'C05e': ('C05', 'back/back11 do_handle_deferred: std::stable_sort replaced by std::partition (not stable)', 'three or more deferred events, two on one side of the event that is handled in the re-offering pass'),
  'C06e': ('C06', 'back11 _irow_::execute returns HANDLED_GUARD_REJECT instead of HANDLED_TRUE ("only swallowed")', 'back11, internal row without action and guard: process_event answers without the handled bit'),
+ 'C02e': ('C02', 'back g_row_::execute: the entry step calls execute_entry<next_state_type> instead of convert_event_and_execute_entry<next_state_type,T2>', 'guard-only row into direct<> / fork / entry_pt: every region enters its initial substate'),
+ 'C03e': ('C03', 'the three non-default switch policies: after_entry returns current_state ("the switch already happened") - the already exited source is written back', 'any non-default active_state_switch_policy and one external transition'),
+ 'C07e': ('C07', 'back frow::execute ends with return res ? HANDLED_TRUE : HANDLED_FALSE', 'inner guards all false and an outer row on the submachine state: the rejected event is reported as handled, the outer row never tried'),
  'C13b': ('C13', 'backmp11 favor_runtime_speed needs_forward_transition: no longer looks into sub-submachines (a type computation)', 'three-level hierarchy, event only the innermost machine has rows for, middle machine does not mention it'),
  'C14a': ('C14', 'puml parse_row_right: action length clamped to 0 when the guard is written before the action list', 'a transition line of the form  A -> B : ev [guard] / action'),
  'C14c': ('C14', 'functor Internal<> rows with an action always answer HANDLED_TRUE (instead of get_functor_return_value<Action>)', 'state-local internal row whose action defers (Defer or a deferring sequence): answers TRUE, the back-end re-dispatches the deferred event at once'),
